@@ -68,6 +68,27 @@ def _wf_m_vector(u, v):
     return u.dot(v)
 
 
+# SUPG advection-diffusion: neither K nor the rate matrix is symmetric (module-level, as above)
+_WF_A = np.array([1.0, 0.5])
+_WF_TAU = 0.1
+
+
+def _wf_adv(w):
+    return w.grad.dot(_WF_A)
+
+
+def _wf_val(w):
+    return w.dot(np.ones(1))
+
+
+def _wf_k_supg(u, v):
+    return 0.05 * u.grad.dot(v.grad) + _wf_adv(u) * (_wf_val(v) + _WF_TAU * _wf_adv(v))
+
+
+def _wf_m_supg(u, v):
+    return _wf_val(u) * (_wf_val(v) + _WF_TAU * _wf_adv(v))
+
+
 def make_weakforms(mesh, p: dict):
     """Weak-form model on the main group of `mesh` (the Field is bound to that group by construction)."""
     M = _models()
@@ -75,7 +96,9 @@ def make_weakforms(mesh, p: dict):
 
     dof_n = p["dof_n"]
     field = Field(mesh.groupElem, dof_n)
-    if dof_n == 1:
+    if dof_n == 1 and p.get("supg"):
+        K, Mm = BiLinearForm(_wf_k_supg), BiLinearForm(_wf_m_supg)
+    elif dof_n == 1:
         K, Mm = BiLinearForm(_wf_k_scalar), BiLinearForm(_wf_m_scalar)
     else:
         K, Mm = BiLinearForm(_wf_k_vector), BiLinearForm(_wf_m_vector)
